@@ -1112,7 +1112,7 @@ fn gen(rng: &mut Rng, n: usize) -> Vec<Case> {
         out.push(vec![tag("local"), num(2), num(0), num(ok as u8), p.to_vec()]);
     }
     // ---- random mixture; end-to-end cases (they spawn processes) are a bounded share
-    let e2e_every = 25usize;
+    let e2e_every = 14usize;
     while out.len() < n {
         if out.len() % e2e_every == 0 {
             out.push(if rng.chance(3, 4) { gen_hs(rng) } else { gen_local(rng) });
@@ -1121,8 +1121,15 @@ fn gen(rng: &mut Rng, n: usize) -> Vec<Case> {
         match rng.below(20) {
             0..=4 => out.push(vec![tag("quote"), gen_path(rng)]),
             5 => out.push(vec![tag("quote"), soup(rng, 40)]),
-            6..=7 => out.push(vec![tag("shwords"), gen_line(rng)]),
-            8..=9 => out.push(vec![tag("forshell"), gen_path(rng)]),
+            6 => out.push(vec![tag("shwords"), gen_line(rng)]),
+            7..=8 => out.push(vec![tag("forshell"), {
+                let mut p = gen_path(rng);
+                if rng.chance(1, 2) && !p.starts_with(b"/~") {
+                    p.splice(0..0, b"/~".iter().copied());
+                }
+                p
+            }]),
+            9 => out.push(gen_inv(rng)),
             10 => out.push(vec![tag("trim"), {
                 let mut p = gen_path(rng);
                 if rng.chance(1, 2) {
